@@ -4,7 +4,7 @@ Case rule on the return value of SBC().get_clusters(structure) with default para
 bound as well, in situ): exactly one cluster, containing every atom, dimensionality 3 (bulk) / 2 (slab).  The case
 space is finite and enumerated (gen/slabs.py): cells = material x kind x facet x layers x pbc x noise; each cell has
 a pool of presentations (rotation, translation, permutation, SBC seed, noise realisation) derived from
-(cell key, VERIF_SEED mod 8, k).  An independent bonding precondition discards (and counts) cells outside the
+(cell key, VERIF_SEED mod 4, k).  An independent bonding precondition discards (and counts) cells outside the
 stated family."""
 import numpy as np
 
@@ -18,7 +18,7 @@ LEVEL = "exploration"
 RULE = ("enumerated cells: 65 reference elements (fcc/bcc/hcp/diamond/sc) + 16 binary/ternary prototypes x {bulk supercell, "
         "(100)/(110)/(111)/(001) slabs x 3-4 layers x pbc TTT/TTF} x noise {0, 0.02, 0.05}; lateral repeats so that periodic "
         "heights exceed 2*max_cell_size; each cell in a presentation (random SO(3) rotation, translation, permutation, SBC "
-        "seed) drawn from its pool for the seed class VERIF_SEED mod 8. thorough = every cell, quick = a VERIF_SEED-chosen "
+        "seed) drawn from its pool for the seed class VERIF_SEED mod 4. thorough = every cell, quick = a VERIF_SEED-chosen "
         "subset (+ every listed finding's cell). Cells failing the independent precondition (bonded neighbours with margin, "
         "no overlap, connected, primitive vectors < max_cell_size, <= 6 atoms per primitive cell) are discarded and counted. "
         "distinct = cell keys judged")
@@ -43,7 +43,7 @@ def finding_cells():
 
 def gen_cases(tier, seed):
     universe = slabs.c02_cells()
-    sc = seed % 8
+    sc = seed % 4
     if tier == "thorough":
         chosen = universe
     else:
